@@ -23,6 +23,7 @@ use blots_core::values::*;
 #[kani::stub(::anyhow::Error::msg, crate::util::stub_anyhow_msg_panic)]
 #[kani::stub(::anyhow::__private::format_err, crate::util::stub_anyhow_format_err_panic)]
 #[kani::stub(std::time::Instant::now, crate::util::stub_instant_now)]
+        #[kani::stub(std::sync::Mutex::lock, crate::util::stub_mutex_lock)]
 pub fn c18_q_builtin_depth_guard() {
     let depth: usize = kani::any();
     let a: f64 = kani::any();
